@@ -4,6 +4,7 @@ package page
 
 import (
 	"bytes"
+	"encoding/base64"
 	"encoding/json"
 	"fmt"
 	"net/http/httptest"
@@ -78,15 +79,25 @@ type Mismatch struct {
 	Why  string          `json:"why"`
 }
 
-func cursorArg(c int, cursorOf func(int) string) *string {
+// the instances of the two classes of cursors that designate nothing: well-formed ones (an offset no element has: far beyond the
+// end, negative) and undecodable ones
+var foreignCursors = []string{connections.OffsetToCursor(1000003), connections.OffsetToCursor(-1), connections.OffsetToCursor(-3), connections.OffsetToCursor(1 << 40)}
+var malformedCursors = []string{"%%%not-a-cursor", base64.StdEncoding.EncodeToString([]byte("cursor:")), base64.StdEncoding.EncodeToString([]byte("cursor:1x")),
+	base64.StdEncoding.EncodeToString([]byte("nocursor:1")), base64.StdEncoding.EncodeToString([]byte("cursor:99999999999999999999")), "Y3Vyc29yOjE"}
+
+const cursorVariants = 6
+
+func cursorArg(c int, cursorOf func(int) string) *string { return cursorArgV(c, cursorOf, 0) }
+
+func cursorArgV(c int, cursorOf func(int) string, variant int) *string {
 	switch {
 	case c == none:
 		return nil
 	case c == foreign:
-		s := connections.OffsetToCursor(1000003)
+		s := foreignCursors[variant%len(foreignCursors)]
 		return &s
 	case c == malformed:
-		s := "%%%not-a-cursor"
+		s := malformedCursors[variant%len(malformedCursors)]
 		return &s
 	default:
 		s := cursorOf(c)
@@ -628,14 +639,20 @@ func Run(args []string) {
 	hx.Parallel(len(idx), 0, func(j int) {
 		v := vecs[idx[j]]
 		f := fixtures[v.N]
-		in := models.ConnectionInput{After: cursorArg(v.After, oc), Before: cursorArg(v.Before, oc), First: sizeArg(v.First), Last: sizeArg(v.Last)}
-		for _, d := range dl {
-			o := d.call(f, in)
-			if why := compare(v, o, d.keys(f), oc); why != "" {
-				out.Put(Mismatch{List: d.name, Kind: "vector", Vec: raws[idx[j]], Got: o, Why: why})
-				bump("mismatch", 1)
+		variants := 1
+		if v.After == foreign || v.After == malformed || v.Before == foreign || v.Before == malformed {
+			variants = cursorVariants // every instance of the classes
+		}
+		for variant := 0; variant < variants; variant++ {
+			in := models.ConnectionInput{After: cursorArgV(v.After, oc, variant), Before: cursorArgV(v.Before, oc, variant), First: sizeArg(v.First), Last: sizeArg(v.Last)}
+			for _, d := range dl {
+				o := d.call(f, in)
+				if why := compare(v, o, d.keys(f), oc); why != "" {
+					out.Put(Mismatch{List: d.name, Kind: "vector", Vec: raws[idx[j]], Got: o, Why: fmt.Sprintf("%s (cursor instance %d)", why, variant)})
+					bump("mismatch", 1)
+				}
+				bump("direct", 1)
 			}
-			bump("direct", 1)
 		}
 	})
 	// walks, direct: the client's loop against the code must produce what the specification's walk produced
@@ -693,7 +710,7 @@ func Run(args []string) {
 					continue
 				}
 				cur := func(p int) string { return full.Cursors[p] }
-				o := w.request(l, cursorArg(v.After, cur), cursorArg(v.Before, cur), sizeArg(v.First), sizeArg(v.Last))
+				o := w.request(l, cursorArgV(v.After, cur, j), cursorArgV(v.Before, cur, j), sizeArg(v.First), sizeArg(v.Last))
 				if why := compare(v, o, full.Edges, cur); why != "" {
 					out.Put(Mismatch{List: l.name, Kind: "vector", Vec: raws[idx[j]], Got: o, Why: why})
 					bump("mismatch", 1)
